@@ -1041,3 +1041,40 @@ func implicitVarScope(info *types.Info, fn *ssa.Function, a *ssa.Alloc) *types.S
 	}
 	return nil
 }
+
+// noteIface: the predicate impl_<I> is in use; state, for every type that has a tag (now or later), whether it
+// implements I (go/types decides; types without a tag are unconstrained).
+func (em *Emitter) noteIface(it types.Type) {
+	if em.ifaces == nil {
+		em.ifaces = map[string]types.Type{}
+	}
+	k := typeName(it)
+	if _, ok := em.ifaces[k]; ok {
+		return
+	}
+	em.ifaces[k] = it
+	var ids []int
+	for id := range em.tagTypes {
+		ids = append(ids, id)
+	}
+	sort.Ints(ids)
+	for _, id := range ids {
+		em.implFact(it, id, em.tagTypes[id])
+	}
+}
+
+func (em *Emitter) implFact(it types.Type, tag int, t types.Type) {
+	iface, ok := it.Underlying().(*types.Interface)
+	if !ok || t == nil {
+		return
+	}
+	if _, isIface := t.Underlying().(*types.Interface); isIface {
+		return // tags of interface types are not dynamic types
+	}
+	v := "false"
+	if types.Implements(t, iface) {
+		v = "true"
+	}
+	em.global(fmt.Sprintf("(declare-fun impl_%s (Int) Bool)", typeName(it)))
+	em.global(fmt.Sprintf("(assert (= (impl_%s %d) %s))", typeName(it), tag, v))
+}
